@@ -102,6 +102,10 @@ def range_bound_rule(ctx, oid, key, side):
                 verdicts.append(("ok", ins, "inclusive upper bound at the largest node index: ties are kept"))
             elif rk == "to_incl" and idx_src == SMALLEST:
                 verdicts.append(("bad", ins, "`..=(start_time, smallest())` keeps only the smallest index among the ties"))
+            elif idx_src is None and "param:3" in fd.slice_operand_pure(bound.instr, i_op)["atoms"] \
+                    and not any(a.startswith("call:") for a in fd.slice_operand_pure(bound.instr, i_op)["atoms"]):
+                verdicts.append(("bad", ins, "the upper bound uses the node's own index: predecessors that end exactly at the start "
+                                 "time but have a larger node index are cut off although can_reach admits them"))
             else:
                 verdicts.append(("undecided", ins, "upper bound form not recognised"))
         else:
